@@ -209,6 +209,65 @@ theorem projection (m K : ℕ) (w : ℕ → F) (Z Phi : ℕ → ℕ → F) (i : 
   unfold scoresW
   ring
 
+/-- Round trip for the Gram-based scores (the natural scores of the inner-product method): if the
+Gram eigenvectors form a complete orthonormal system and the dropped ones carry nothing
+(`Xcᵀ v_k = 0` for `k ≥ K`, i.e. the retained components span the centred curves), then
+`inverse_transform(InnPro scores) = ρ·Xc + mean` — the training curves — whatever noise variance
+was subtracted and although the eigenfunctions need not have unit norm. -/
+theorem roundtrip_innpro (m N K : ℕ) (hK : K ≤ N) (mean : ℕ → F) (ρ : F) (Xc V : ℕ → ℕ → F) (r : ℕ → F)
+    (hrows : ∀ a < N, ∀ b < N, ∑ i ∈ range N, V a i * V b i = if a = b then 1 else 0)
+    (hr : ∀ k < K, r k ≠ 0)
+    (hdrop : ∀ k, K ≤ k → k < N → ∀ j < m, ∑ i ∈ range N, Xc i j * V k i = 0) :
+    ∀ i < N, ∀ j < m,
+      inverseTransform K mean ρ (scoresInnPro r V) (gramEigfun N Xc V r) i j = ρ * Xc i j + mean j := by
+  classical
+  intro i hi j hj
+  have hcols := cols_orthonormal_of_rows N V hrows
+  unfold inverseTransform
+  congr 2
+  have hterm : ∀ k ∈ range K, scoresInnPro r V i k * gramEigfun N Xc V r k j
+      = V k i * ∑ i' ∈ range N, Xc i' j * V k i' := by
+    intro k hk
+    unfold scoresInnPro gramEigfun
+    have := hr k (mem_range.1 hk)
+    field_simp
+  rw [Finset.sum_congr rfl hterm]
+  have hext : ∑ k ∈ range K, V k i * ∑ i' ∈ range N, Xc i' j * V k i'
+      = ∑ k ∈ range N, V k i * ∑ i' ∈ range N, Xc i' j * V k i' := by
+    rw [← Finset.sum_range_add_sum_Ico _ hK]
+    have : ∑ k ∈ Ico K N, V k i * ∑ i' ∈ range N, Xc i' j * V k i' = 0 := by
+      apply Finset.sum_eq_zero
+      intro k hk
+      rw [Finset.mem_Ico] at hk
+      rw [hdrop k hk.1 hk.2 j hj, mul_zero]
+    rw [this, add_zero]
+  rw [hext]
+  calc ∑ k ∈ range N, V k i * ∑ i' ∈ range N, Xc i' j * V k i'
+      = ∑ i' ∈ range N, Xc i' j * ∑ k ∈ range N, V k i * V k i' := by
+        simp_rw [Finset.mul_sum]
+        rw [Finset.sum_comm]
+        apply Finset.sum_congr rfl; intro i' _
+        apply Finset.sum_congr rfl; intro k _
+        ring
+    _ = ∑ i' ∈ range N, Xc i' j * (if i = i' then 1 else 0) := by
+        apply Finset.sum_congr rfl; intro i' hi'
+        rw [hcols i hi i' (mem_range.1 hi')]
+    _ = Xc i j := by
+        simp [Finset.sum_ite_eq, hi]
+
+/-- PACE scores are linear in the projected data: so (without normalisation, where `transform(data)`
+projects exactly the stored training data) they agree on explicit and stored training curves, and
+under normalisation they inherit the defect of `transform_defect`. -/
+theorem pace_linear (m : ℕ) (lam : ℕ → F) (Y Y' Phi : ℕ → ℕ → F) (a b : F) (i k : ℕ) :
+    scoresPace m lam (fun i j => a * Y i j + b * Y' i j) Phi i k
+      = a * scoresPace m lam Y Phi i k + b * scoresPace m lam Y' Phi i k := by
+  unfold scoresPace
+  have : ∑ j ∈ range m, (a * Y i j + b * Y' i j) * Phi k j
+      = a * ∑ j ∈ range m, Y i j * Phi k j + b * ∑ j ∈ range m, Y' i j * Phi k j := by
+    rw [Finset.mul_sum, Finset.mul_sum, ← Finset.sum_add_distrib]
+    apply Finset.sum_congr rfl; intro j _; ring
+  rw [this]; ring
+
 /-- Why the multiplier of `inverse_transform` must be `√weight` (the repaired line): a
 multiplier `ρ` reproduces a non-zero rescaled value `z` only if `ρ = √weight`. -/
 theorem inverse_multiplier_unique (ρ r z μ : F) (hz : z ≠ 0) (h : ρ * z + μ = r * z + μ) : ρ = r := by
@@ -285,5 +344,16 @@ example :
   obtain rfl | rfl : i = 0 ∨ i = 1 := by omega
   all_goals simp [symMat, covMat, Xc, U, Finset.sum_range_succ]
   all_goals norm_num
+
+/-- `roundtrip_innpro`: the identity as complete orthonormal system (`N = K = 2`) meets the hypotheses. -/
+example :
+    let V : ℕ → ℕ → ℚ := fun k i => if k = i then 1 else 0
+    (∀ a < 2, ∀ b < 2, ∑ i ∈ range 2, V a i * V b i = if a = b then 1 else 0) ∧
+      (∀ k < 2, (fun _ : ℕ => (1 : ℚ)) k ≠ 0) := by
+  refine ⟨?_, fun _ _ => one_ne_zero⟩
+  intro a ha b hb
+  obtain rfl | rfl : a = 0 ∨ a = 1 := by omega
+  all_goals obtain rfl | rfl : b = 0 ∨ b = 1 := by omega
+  all_goals simp
 
 end C03
